@@ -19,6 +19,31 @@ KIND_RE = re.compile(r"^(c\d{2,3})_(p|b|tp|tb|canary|tcanary)_(\w+)$")
 QUICK_KINDS = ("p", "b", "canary")
 ALL_KINDS = ("p", "b", "tp", "tb", "canary", "tcanary")
 COMPLETE_KINDS = ("p", "tp")
+T_KINDS = ("tp", "tb", "tcanary")
+# Thorough tier = quick obligations + the thorough-only harnesses that were observed to reach a verdict
+# (discharged / canary refuted) on the unchanged tree on the reference machine. The list is committed
+# (thorough-validated.txt: "<harness> <seconds>"); a thorough-only harness that never produced a
+# verdict within the sweep budget is NOT part of any registered command (it has decided nothing) and
+# is reported in the evidence under thorough_not_registered. VERIF_SWEEP=1 runs them all (tools/sweep_thorough.sh).
+THOROUGH_LIST = os.path.join(VERIF, "thorough-validated.txt")
+SWEEP = bool(os.environ.get("VERIF_SWEEP"))
+if os.environ.get("VERIF_KINDS"):
+    ALL_KINDS = tuple(os.environ["VERIF_KINDS"].split(","))
+
+
+def thorough_validated():
+    ok = {}
+    if os.path.exists(THOROUGH_LIST):
+        for l in open(THOROUGH_LIST):
+            l = l.split("#")[0].split()
+            if l:
+                ok[l[0]] = float(l[1]) if len(l) > 1 else 0.0
+    return ok
+
+
+def no_verdict(res):
+    """a harness that ended without any failed check and without success: time-out, out of memory, crash"""
+    return res is None or (res["status"] != "Success" and not res["failed"])
 UNDECIDED_CATEGORIES = ("unwind", "unsupported_construct")
 # CBMC's float NaN-production checks are not Rust failures (producing a NaN is defined behaviour);
 # they are reported in the evidence but never decide an obligation.
@@ -36,8 +61,15 @@ def sh(cmd, cwd=None, env=None, timeout=None, logfile=None):
         e.update(env)
     t0 = time.time()
     import signal
+    pre = None
+    if os.environ.get("VERIF_MEM_GB"):
+        # address-space cap per process (thorough tier): a CBMC run that would exhaust the machine
+        # aborts instead and is reported as not explored
+        import resource
+        lim = int(float(os.environ["VERIF_MEM_GB"]) * (1 << 30))
+        pre = lambda: resource.setrlimit(resource.RLIMIT_AS, (lim, lim))
     proc = subprocess.Popen(cmd, cwd=cwd, env=e, stdin=subprocess.DEVNULL, stdout=subprocess.PIPE, stderr=subprocess.STDOUT,
-                            text=True, errors="replace", start_new_session=True)
+                            text=True, errors="replace", start_new_session=True, preexec_fn=pre)
     try:
         out, _ = proc.communicate(timeout=timeout)
         rc = proc.returncode
@@ -225,8 +257,15 @@ def run_kani(pid, part, tier, jobs):
             km = KIND_RE.match(n)
             if km and n in allh and km.group(2) in kinds:
                 expected[n] = (km.group(2), allh[n])
+    not_registered = []
+    if tier == "thorough" and not SWEEP:
+        okl = thorough_validated()
+        for n in sorted(expected):
+            if expected[n][0] in T_KINDS and n not in okl:
+                not_registered.append(n)
+                del expected[n]
     out = {"expected": expected, "results": {}, "undecided": [], "crate": crate_dir, "wall_s": 0.0,
-           "cmd": "", "tools": {}, "transform": []}
+           "cmd": "", "tools": {}, "transform": [], "not_registered": not_registered}
     root = repo_root(part)
     if part.get("transform"):
         _, applied, problems = prepare_xrepo()
@@ -254,11 +293,17 @@ def run_kani(pid, part, tier, jobs):
     filt = []
     for pre in prefixes:
         for k in kinds:
-            filt += ["--harness", "%s%s_" % (pre, k)]
-    for n in extra:
-        if n in expected:
+            if k in T_KINDS and not SWEEP:
+                continue
+            if any(kk == k and nn.startswith(pre) for nn, (kk, _f) in expected.items()):
+                filt += ["--harness", "%s%s_" % (pre, k)]
+    for n in sorted(expected):
+        if (n in extra or (expected[n][0] in T_KINDS and not SWEEP)) and ["--harness", n] != filt[-2:]:
             filt += ["--harness", n]
     per_harness_to = part.get("harness_timeout_thorough" if tier == "thorough" else "harness_timeout", 300 if tier == "quick" else 3600)
+    if tier == "thorough" and not SWEEP:
+        okl = thorough_validated()
+        per_harness_to = int(max([per_harness_to, 900] + [3 * okl.get(n, 0) for n in expected]))
     if os.environ.get("VERIF_HARNESS_TIMEOUT"):
         per_harness_to = int(os.environ["VERIF_HARNESS_TIMEOUT"])
     cmd += filt + ["-j", str(jobs), "--output-format", "terse", "--export-json", jpath,
@@ -266,6 +311,8 @@ def run_kani(pid, part, tier, jobs):
     cmd += part.get("extra_args", [])
     out["cmd"] = "cd %s && CARGO_NET_OFFLINE=true %s" % (os.path.join(root, crate_dir), " ".join(cmd))
     total_to = part.get("timeout_thorough" if tier == "thorough" else "timeout", 1500 if tier == "quick" else 14400)
+    if tier == "thorough":
+        total_to = max(total_to, 1800 + (len(expected) // max(jobs, 1) + 1) * per_harness_to * 1.2)
     rc, text, dt = sh(cmd, cwd=os.path.join(root, crate_dir), timeout=total_to, logfile=lpath)
     for _attempt in range(2):
         # transient cargo failure seen under load ("failed to run `rustc` to learn about
@@ -558,12 +605,15 @@ def main(argv):
         log("no unit for %s" % pid)
         return 2
     spec = json.load(open(spec_path))
-    jobs = int(os.environ.get("VERIF_JOBS", spec.get("jobs", 12)))
+    jobs = int(os.environ.get("VERIF_JOBS", spec.get("jobs", 12) if tier == "quick" else spec.get("jobs_thorough", 4)))
+    if tier == "thorough":
+        os.environ.setdefault("VERIF_MEM_GB", "40")
     t0 = time.time()
     known = [k for k in list_known() if k["prop"] == pid]
 
     obligations = []   # dicts: name backend kind verdict reason n_checks solver_s
     undecided = []
+    not_explored, not_registered = [], []
     violations = []
     known_hits = []
     tools = {}
@@ -576,6 +626,7 @@ def main(argv):
 
     for part in spec.get("kani", []):
         r = run_kani(pid, part, tier, jobs)
+        not_registered.extend(r.get("not_registered", []))
         cmds.append(r["cmd"])
         transforms.extend(x for x in r.get("transform", []) if x not in transforms)
         tools.update({k: v for k, v in r.get("tools", {}).items() if k in ("kani", "cbmc", "rustc")})
@@ -584,6 +635,11 @@ def main(argv):
         for name, (kind, hfile) in sorted(r["expected"].items()):
             res = r["results"].get(name)
             verdict, reason = classify(name, kind, res)
+            if tier == "thorough" and kind in T_KINDS and no_verdict(res):
+                # thorough-only harness without a verdict (time-out / memory cap / solver crash): nothing was
+                # explored by it in this run; it neither supports nor contradicts the property
+                verdict, reason = "not-explored", "no verdict within the thorough budget (%s)" % reason
+                not_explored.append(name)
             ob = {"name": name, "backend": "kani/cbmc", "kind": kind, "verdict": verdict, "reason": reason,
                   "n_checks": (res["n_checks"] - sum(1 for f in res["failed"] if f["category"] in IGNORED_CATEGORIES)) if res else 0,
                   "ignored_nan_checks": sum(1 for f in res["failed"] if f["category"] in IGNORED_CATEGORIES) if res else 0, "solver_s": (res or {}).get("solver_s"),
@@ -666,6 +722,9 @@ def main(argv):
     expl = spec.get("explanation", "")
     expl += " | this run: %d complete (unbounded/full-domain) obligations-units, %d bounded stand-ins (%s), %d canaries refuted as required." % (
         len(complete), len(bounded), spec.get("bounds", "see harness names"), sum(1 for c in canaries if c["verdict"] == "canary-ok"))
+    if tier == "thorough":
+        expl += " Thorough tier: %d thorough-only harnesses gave no verdict within the budget (not explored: %s); %d thorough-only harnesses are not registered because they never reached a verdict on the reference machine (%s)." % (
+            len(not_explored), ", ".join(not_explored) or "-", len(not_registered), ", ".join(not_registered) or "-")
     if undecided:
         expl += " UNDECIDED: " + "; ".join(undecided)[:1500]
     for o in obligations[:60]:
@@ -715,6 +774,8 @@ def main(argv):
             "solver_time_s": round(sum((o["solver_s"] or 0) for o in obligations), 3),
             "backends": sorted(set(o["backend"] for o in obligations)),
             "undecided": undecided,
+            "thorough_not_explored": not_explored,
+            "thorough_not_registered": not_registered,
             "source_transform_applied": transforms,
             "known_findings_hit": [n for n, _ in known_hits],
             "samples": samples,
